@@ -62,7 +62,8 @@ def main_rs(def_ids, inputs_arg=True):
     lines.append("    let ins = if args.len() > 2 { load_inputs(&args[2]) } else { Default::default() };")
     lines.append("    let seed: u64 = if args.len() > 3 { args[3].parse().unwrap() } else { 1 };")
     for i in def_ids:
-        lines.append("    d%d::run(&mut o, &ins, seed);" % i)
+        # a panic that escapes a driver is data about definition i, not a tool error
+        lines.append("    if let Err(p) = catch(std::panic::AssertUnwindSafe(|| d%d::run(&mut o, &ins, seed))) { o.line(&format!(\"{{\\\"op\\\":\\\"panic\\\",\\\"def\\\":%d,\\\"i\\\":0,\\\"msg\\\":{}}}\", jcps(&p))); }" % (i, i))
     lines.append("    o.finish();")
     lines.append("}")
     return "\n".join(lines) + "\n"
